@@ -168,7 +168,7 @@ const OPAQUE_ANNOT: &str = "/** <div rustbindgen opaque></div> */\n";
 const HIDE_ANNOT: &str = "/** <div rustbindgen hide></div> */\n";
 
 /// extra declarations with interesting layouts, always candidates for opacity
-fn layout_decls(rng: &mut Rng, p: &mut Program, start_num: u32) {
+fn layout_decls(rng: &mut Rng, p: &mut Program, start_num: u32, force_bases: bool) {
     let n = rng.range(1, 4);
     for i in 0..n {
         let num = start_num + i as u32;
@@ -211,7 +211,7 @@ fn layout_decls(rng: &mut Rng, p: &mut Program, start_num: u32) {
     }
     // C++: an empty record used as a base class (the empty-base optimisation gives it no storage in the derived record) and a
     // non-empty one, each with a derived record
-    if p.cxx && rng.chance(1, 3) {
+    if p.cxx && (force_bases || rng.chance(1, 3)) {
         let num = start_num + 9;
         for (k, body) in [(0u32, String::new()), (1, format!(" short s[{}]; ", rng.range(1, 5)))] {
             let base = format!("O{}", num + k);
@@ -231,7 +231,7 @@ fn build_case(rng: &mut Rng, force: bool) -> Case {
     let cxx = force || rng.chance(1, 2);
     let n_decls = rng.range(4, 12) as usize;
     let mut p = cgen::generate(rng, &cgen::Shape { n_decls, cxx });
-    layout_decls(rng, &mut p, 40);
+    layout_decls(rng, &mut p, 40, force);
     let namespaces_on = cxx && (force || rng.chance(1, 4));
     let mut block = PatternSets::default();
     let mut opaque_pats = vec![];
@@ -246,6 +246,14 @@ fn build_case(rng: &mut Rng, force: bool) -> Case {
             if dj.file == 1 {
                 blocked.insert(j);
             }
+        }
+    }
+    // forced cases: the non-empty base class `O50` carries a `hide` annotation; the record that derives from it carries none
+    // (an annotation speaks about the declaration it is written on)
+    if force {
+        if let Some(i) = p.decls.iter().position(|d| d.base == "O50") {
+            annotated.insert(i, HIDE_ANNOT);
+            blocked.insert(i);
         }
     }
     if mode != 1 {
@@ -606,7 +614,8 @@ fn oracles(
             false
         };
         for (u, du) in p.decls.iter().enumerate() {
-            if c.blocked.contains(&u) || c.opaque.contains(&u) || matches!(du.kind, DKind::Template) { continue; }
+            // (an opaque pattern turns whatever it matches into a blob — also a typedef — which names nothing)
+            if c.blocked.contains(&u) || c.opaque.contains(&u) || matches!(du.kind, DKind::Template) || am::set_matches(&c.opaque_pats, &p.path(u)) { continue; }
             let uname = if c.namespaces_on { du.base.clone() } else { rust_name(u) };
             // the emitted definition(s) of `u`
             let texts: Vec<&str> = leaves.iter().filter(|l| !matches!(l.kind, "impl" | "use" | "other") && l.name.as_deref() == Some(uname.as_str())).map(|l| l.text.as_str()).collect();
@@ -615,9 +624,10 @@ fn oracles(
                 if !c.blocked.contains(&b) || !p.decls[b].kind.is_type() || matches!(p.decls[b].kind, DKind::Template) { continue; }
                 // only uses written in `u`'s own declaration as a base class or a data member (the dependency relation is
                 // transitive through typedefs; methods and function-pointer members are items / types of their own)
+                // (a use inside a template argument list is a use by the instantiation, which may itself be opaque or blocklisted)
                 let member_text: String = if matches!(du.kind, DKind::Struct | DKind::Union | DKind::Class) {
-                    du.text.lines().enumerate().filter(|(k, l)| *k == 0 || !l.contains('(')).map(|(_, l)| l).collect::<Vec<_>>().join("\n")
-                } else { du.text.clone() };
+                    du.text.lines().enumerate().filter(|(k, l)| *k == 0 || (!l.contains('(') && !l.contains('<'))).map(|(_, l)| l).collect::<Vec<_>>().join("\n")
+                } else if du.text.contains('<') { String::new() } else { du.text.clone() };
                 if !ident_in(&member_text, &p.decls[b].base) { continue; }
                 let bname = if c.namespaces_on { p.decls[b].base.clone() } else { rust_name(b) };
                 st.bump("still-named-checked");
@@ -669,7 +679,8 @@ fn oracles(
                     // a record, enum, function or variable that no option, annotation or file pattern selects must
                     // not be regarded as blocklisted / opaque (judged on the generator's own selection, not on what
                     // the implementation under test says)
-                    let inherits = matches!(p.decls[d].kind, DKind::Typedef | DKind::Template) || p.decls[d].deps.iter().any(|x| c.blocked.contains(x) || c.opaque.contains(x));
+                    // (a record, enum, function or variable is never blocklisted / opaque because of what it uses or derives from)
+                    let inherits = matches!(p.decls[d].kind, DKind::Typedef | DKind::Template);
                     if inherits || it.name.contains('<') {
                         touched.insert(d);
                         st.bump("touched-by-inheritance");
